@@ -513,3 +513,32 @@ def visual_is_presentational(files):
                 if any("visual" in x.split(".") for x in names) and n._q != "Tensor.draw_graph":
                     problems.append({"where": "%s:%s" % (rel, n._q), "clause": "visual_used_outside_draw_graph", "line": n.lineno})
     return problems
+
+
+def masked_ufunc_outputs(rel):
+    """calls with a `where=` keyword (NumPy ufuncs write only the selected positions) whose output buffer is not supplied by the caller: without `out=<an array the
+    function initialised>` the other positions are whatever the allocator left behind.  Accepted: out= a name bound in the same function to np.zeros / zeros_like /
+    ones / full / a copy / an arithmetic result; np.where(...) itself (a function, not a masked ufunc) is not concerned."""
+    tree = parse(rel)
+    annotate(tree)
+    bad = []
+    for fn in ast.walk(tree):
+        if not isinstance(fn, (ast.FunctionDef, ast.AsyncFunctionDef)):
+            continue
+        bound = {}
+        for n in own_nodes(fn):
+            if isinstance(n, ast.Assign) and len(n.targets) == 1 and isinstance(n.targets[0], ast.Name):
+                bound.setdefault(n.targets[0].id, []).append(n.value)
+        for n in own_nodes(fn):
+            if not isinstance(n, ast.Call) or not any(k.arg == "where" for k in n.keywords):
+                continue
+            out = next((k.value for k in n.keywords if k.arg == "out"), None)
+            ok = False
+            if isinstance(out, ast.Name) and out.id in bound:
+                def init(v):
+                    d = dotted(v.func) if isinstance(v, ast.Call) else None
+                    return (d is not None and d.split(".")[-1] in ("zeros", "zeros_like", "ones", "ones_like", "full", "full_like", "copy", "array", "asarray", "astype")) or isinstance(v, (ast.BinOp, ast.UnaryOp))
+                ok = all(init(v) for v in bound[out.id])
+            if not ok:
+                bad.append({"where": "%s:%s" % (rel, fn.name), "line": n.lineno, "call": (dotted(n.func) or "?"), "out": ast.unparse(out) if out is not None else "absent"})
+    return bad
